@@ -158,6 +158,8 @@ enum Bound {
     Abs(f64),
     Rel(f64),
     Ulp(f64),
+    /// relative to max(|reference|, 1): absolute near the zeros of the reference, relative where it is large
+    Mix(f64),
 }
 fn parse_bound(s: &str) -> Bound {
     let (k, v) = s.split_once(':').expect("bound");
@@ -166,6 +168,7 @@ fn parse_bound(s: &str) -> Bound {
         "abs" => Bound::Abs(v),
         "rel" => Bound::Rel(v),
         "ulp" => Bound::Ulp(v),
+        "mix" => Bound::Mix(v),
         _ => panic!("bound kind"),
     }
 }
@@ -180,12 +183,10 @@ fn err_of(b: Bound, got: f32, want: f32) -> Option<f64> {
     if !want.is_finite() {
         return None;
     }
-    // relative error against a reference that is itself ill-conditioned says nothing: tan is
-    // compared away from its poles only (|tan x| <= 10, i.e. |cos x| > 0.0995)
-    if let Bound::Rel(_) = b {
-        if TAN_GUARD.with(|g| g.get()) && want.abs() > 10.0 {
-            return None;
-        }
+    // error against a reference that is itself ill-conditioned says nothing: tan is compared away
+    // from its poles only (|tan x| <= 10, i.e. |cos x| > 0.0995), and relative to max(|tan x|, 1)
+    if TAN_GUARD.with(|g| g.get()) && want.abs() > 10.0 {
+        return None;
     }
     if !got.is_finite() {
         return Some(f64::INFINITY);
@@ -195,11 +196,12 @@ fn err_of(b: Bound, got: f32, want: f32) -> Option<f64> {
         Bound::Abs(_) => d,
         Bound::Rel(_) => d / (want.abs() as f64).max(1e-30),
         Bound::Ulp(_) => d / ulp_of(want),
+        Bound::Mix(_) => d / (want.abs() as f64).max(1.0),
     })
 }
 fn limit(b: Bound) -> f64 {
     match b {
-        Bound::Abs(v) | Bound::Rel(v) | Bound::Ulp(v) => v,
+        Bound::Abs(v) | Bound::Rel(v) | Bound::Ulp(v) | Bound::Mix(v) => v,
     }
 }
 
@@ -357,7 +359,7 @@ const BOUNDS: &[(&str, &str, &str)] = &[
     ("mm", "powf", "rel:5e-2"),
     ("mm", "sin", "abs:2.2e-3"),
     ("mm", "cos", "abs:2.2e-3"),
-    ("mm", "tan", "rel:3.5e-2"),
+    ("mm", "tan", "mix:3.5e-2"),
     ("mm", "asin", "abs:3.6e-2"),
     ("mm", "acos", "abs:5.8e-2"),
     ("mm", "atan2", "abs:5.7e-3"),
